@@ -1052,6 +1052,12 @@ func restoreFromSavepointDepth(p Program, c *hx.Case, fs *storage.MemoryFilesyst
 	}
 	defer w.Close()
 	w.AvoidRedeploy = func() bool { return c.Known("C01-survivor-redeployed-in-place") }
+	// New processes: the engine gives every operator process a fresh random id,
+	// so no operator of this job writes into a directory of the job before it
+	// (an id reused on the same storage would let the new operator's table
+	// numbering, which only looks at the tables it restored itself, overwrite
+	// tables its neighbour restored from that directory).
+	w.NamePrefix = fmt.Sprintf("r%d", depth+1)
 	for i := 0; i < cfg.Workers; i++ {
 		w.StartWorker()
 	}
